@@ -192,7 +192,13 @@ def run(ctx):
     ctx.sample({"tree": cases[n_model + 5]["t"]})
     ctx.sample({"tree": cases[-1]["t"]})
     send = [{"id": c["id"], "t": c["t"]} for c in cases]
-    X.run_stepping_over_known(ctx, binary, "wire", send, "C19")
+    vs = X.run_stepping_over_known(ctx, binary, "wire", send, "C19")
+    passing = [send[v["id"]] for v in vs if v.get("ok")]
+
+    def corrupt(t):
+        t["e"] = t.get("e", 0) + 1
+        return t
+    X.binding_selftest(ctx, binary, "wire", passing[::max(1, len(passing) // 40)], corrupt)
     ctx.extra_cov["cases_from_wire_model"] = n_model
     # outside the domain: observations only
     outside = []
